@@ -152,7 +152,7 @@ Proof.
   intros fl i1 i2 io s _ L12 Lo. unfold lincomb_leaf, cast_of. destruct fl.
   - destruct (lincomb_impl_correct true (bdtf io) (flg i1) (flg i2) (flg io) a b i1 i2 io s L12 Lo) as (s' & E & Ho & Hf).
     exists s'. rewrite map_id. auto.
-  - apply lincomb_impl_nonfloating. exact L12.
+  - apply lincomb_impl_nonfloating; assumption.
 Qed.
 
 Lemma multiply_leaf_ok : leaf_ok (@multiply_leaf T N) (fun _ u v => vmul u v) (fun _ => True).
